@@ -392,37 +392,58 @@ func judgeC13(sc *c13Script, obs *c13Obs) (out []jv) {
 }
 
 // porcupine model: the callback registry as a linearizable object.
-type c13DispatchIn struct {
-	Seq  int
-	Type string
+// c13DeliverIn: "was event Seq passed to callback Cb?" (one operation per event and per callback whose
+// subscription matches the event's type; its interval is the dispatch interval of the event)
+type c13DeliverIn struct {
+	Seq int
+	Cb  int
 }
 
+// c13Model: linearizability per callback. The statement speaks about each callback ("passed exactly
+// once to each callback currently subscribed", "after an unsubscribe function has returned its callback
+// is never invoked again"); it does not make the dispatch of one event an atomic snapshot of the whole
+// registry, and an implementation that dispatches from a copy-on-write table is not atomic in that
+// sense. So every callback has its own history - subscribe, unsubscribe calls, and for every matching
+// event whether it was delivered - which must have a sequential explanation against a one-bit model.
 func c13Model() porcupine.Model {
+	cbOf := func(in any) int {
+		switch v := in.(type) {
+		case c13Op:
+			return v.Cb
+		case c13DeliverIn:
+			return v.Cb
+		}
+		return -1
+	}
 	return porcupine.Model{
-		Init: func() any { return "" },
+		Partition: func(history []porcupine.Operation) [][]porcupine.Operation {
+			by := map[int][]porcupine.Operation{}
+			var keys []int
+			for _, op := range history {
+				k := cbOf(op.Input)
+				if _, ok := by[k]; !ok {
+					keys = append(keys, k)
+				}
+				by[k] = append(by[k], op)
+			}
+			sort.Ints(keys)
+			out := make([][]porcupine.Operation, 0, len(keys))
+			for _, k := range keys {
+				out = append(out, by[k])
+			}
+			return out
+		},
+		Init: func() any { return false },
 		Step: func(state, in, out any) (bool, any) {
-			reg := c13Decode(state.(string))
 			switch v := in.(type) {
 			case c13Op:
-				if v.Kind == "sub" {
-					reg[v.Cb] = v.Type
-				} else {
-					delete(reg, v.Cb)
-				}
-				return true, c13Encode(reg)
-			case c13DispatchIn:
-				var want []int
-				for cb, ty := range reg {
-					if c13Match(ty, v.Type) {
-						want = append(want, cb)
-					}
-				}
-				sort.Ints(want)
-				return fmt.Sprint(want) == out.(string), state
+				return true, v.Kind == "sub"
+			case c13DeliverIn:
+				return out.(bool) == state.(bool), state
 			}
 			return false, state
 		},
-		Equal:             func(a, b any) bool { return a.(string) == b.(string) },
+		Equal:             func(a, b any) bool { return a.(bool) == b.(bool) },
 		DescribeOperation: func(in, out any) string { return fmt.Sprintf("%+v -> %v", in, out) },
 	}
 }
@@ -455,10 +476,15 @@ func c13Decode(s string) map[int]string {
 
 func c13Linearizable(obs *c13Obs) (porcupine.CheckResult, int) {
 	ops := append([]porcupine.Operation(nil), obs.Hist...)
-	byCbSeq := map[int][]int{}
+	got := map[[2]int]int{}
 	for _, iv := range obs.Invs {
-		byCbSeq[iv.Seq] = append(byCbSeq[iv.Seq], iv.Cb)
+		got[[2]int{iv.Seq, iv.Cb}]++
 	}
+	cbs := make([]int, 0, len(obs.Regs))
+	for cb := range obs.Regs {
+		cbs = append(cbs, cb)
+	}
+	sort.Ints(cbs)
 	for k := 0; k < len(obs.Emits) && k < len(obs.ReadRets); k++ {
 		begin := obs.ReadRets[k]
 		end := int64(-1)
@@ -471,9 +497,11 @@ func c13Linearizable(obs *c13Obs) (porcupine.CheckResult, int) {
 		if end < 0 {
 			continue
 		}
-		got := append([]int(nil), byCbSeq[k]...)
-		sort.Ints(got)
-		ops = append(ops, porcupine.Operation{ClientId: 0, Input: c13DispatchIn{k, obs.Emits[k]}, Call: begin, Output: fmt.Sprint(got), Return: end})
+		for _, cb := range cbs {
+			if reg := obs.Regs[cb]; reg != nil && c13Match(reg.typ, obs.Emits[k]) {
+				ops = append(ops, porcupine.Operation{ClientId: 0, Input: c13DeliverIn{k, cb}, Call: begin, Output: got[[2]int{k, cb}] > 0, Return: end})
+			}
+		}
 	}
 	res := porcupine.CheckOperationsTimeout(c13Model(), ops, 20*time.Second)
 	return res, len(ops)
@@ -609,7 +637,7 @@ func TestC13(t *testing.T) {
 			r.Count("porcupine_operations", int64(nops))
 			switch res {
 			case porcupine.Illegal:
-				fs = append(fs, jvf([]string{"not_linearizable"}, "the history of subscribe/unsubscribe/dispatch operations (%d ops) has no sequential explanation", nops))
+				fs = append(fs, jvf([]string{"not_linearizable"}, "the subscribe/unsubscribe/delivery history of some callback has no sequential explanation (%d operations in all)", nops))
 			case porcupine.Unknown:
 				r.Count("porcupine_timeouts", 1)
 			}
